@@ -9,12 +9,15 @@ THEOREMS = ["Helios.Http.chain_order", "Helios.Http.chain_order_general", "Helio
             "Helios.Http.startup_fail_closed", "Helios.Http.unknown_plugin_fails",
             "Helios.Facts.plugins_eq"]
 BUILTINS = ["log", "hdr", "sl.1000.100000", "gz.5.10.text%2F", "auth.k1"]
+# degenerate but accepted keys: no client can present them (header values arrive trimmed), so the
+# protection must reject every request — never turn into "no key required"
+ODD_AUTH = ["auth.%20", "auth.%09%20", "auth.%0A", "auth.k1%20", "auth.%20k1"]
 
 
 def gen_order(rng):
     """a chain of up to 5 built-ins interleaved with numbered probes"""
     k = rng.randint(0, 5)
-    items = [rng.choice(BUILTINS) for _ in range(k)]
+    items = [rng.choice(BUILTINS) if rng.random() < 0.9 else rng.choice(ODD_AUTH) for _ in range(k)]
     chain, pid = [], 0
     for it in items:
         if rng.random() < 0.7:
